@@ -48,7 +48,9 @@ O(to, amt) == [to |-> to, amt |-> amt, fz |-> 0]
 OF(to, amt, fz) == [to |-> to, amt |-> amt, fz |-> fz]
 NoKV == [k \in Keys |-> NoRd]
 (* bad: "" = honest; "amount" = every input cites one unit less than the output it spends really holds (outputs sum
-   to the cited total): such a transaction is never current (CheckInputEqualOutput compares cited and stored amount) *)
+   to the cited total): such a transaction is never current (CheckInputEqualOutput compares cited and stored amount);
+   "sum" = inputs and outputs of different sums; "dupin" = the same output listed twice as input; "coinbase" = the
+   spend is folded into the coinbase of the block that lists it.  None of these is ever admissible. *)
 (* big: the transaction carries a 300 KB description (block size limit, C13) *)
 Tok(ins, outs) == [ins |-> ins, outs |-> outs, reads |-> NoKV, writes |-> NoKV, bad |-> "", big |-> FALSE]
 TokBad(ins, outs, bad) == [ins |-> ins, outs |-> outs, reads |-> NoKV, writes |-> NoKV, bad |-> bad, big |-> FALSE]
@@ -75,6 +77,11 @@ TX == [
   p9 |-> KV([k \in Keys |-> None], [k \in Keys |-> IF k = "k1" THEN "x1" ELSE "x2"]),   \* creates both keys (k2 is its 2nd write)
   p10 |-> KV(R2("p9"), R2("x3")),                                      \* overwrites k2 (written at another offset by p9)
   w1 |-> TokBad({<<"g", 0>>}, <<O("c", 10)>>, "amount"),              \* cites 9 for g.0, which holds 10 (outputs = what it really holds)
+  w2 |-> TokBad({<<"g", 1>>}, <<O("c", 7)>>, "sum"),                   \* outputs (7) exceed the input (g.1 holds 6): creates a token
+  w3 |-> TokBad({<<"g", 1>>}, <<O("c", 12)>>, "dupin"),                \* lists g.1 twice (cites 6 + 6, outputs 12)
+  w4 |-> TokBad({<<"g", 1>>}, <<O("c", 5)>>, "sum"),                   \* outputs (5) below the input and no fee output: destroys a token
+  c1 |-> TokBad({<<"g", 1>>}, <<O("c", 5)>>, "coinbase"),              \* not a transaction of its own: the block's coinbase spends g.1 (6) and
+                                                                       \* pays award (1) + 5; a coinbase carries no signature and counts as new supply
   b1 |-> KVBig(NoKV, NoKV),                                           \* big, touches nothing
   b2 |-> KVBig(NoKV, NoKV),
   b3 |-> KVBig(R2(None), R2("y1")),                                   \* big, creates k2
